@@ -128,7 +128,7 @@ PROPS = {
     'C14': {
         'correspondence': CORR_L1,
         'coq': ['theories/Props/C14.vo', 'theories/Inst/C14_now.vo', 'theories/Inst/Fut_now.vo', 'theories/L2/PropsC01.vo', 'theories/L2/Inst.vo', 'theories/Inst/Jobs_now.vo', 'theories/Inst/Wrapper_now.vo'],
-        'profiles': [prof('drop', (60, 15), (1500, 60)), prof('sync', (40, 10), (800, 40)), prof('fsync', (100, 20), (1500, 60)), prof('progs:cancel.progs', (0, 400), (0, 6000)), prof('pipedrop', (30, 10), (400, 40), extra=['--max-steps', '30000']), prof('progs:fut_extra.progs', (0, 60), (0, 1500)), prof('drop', (40, 2), (500, 4), real='asan'), prof('fsync', (30, 2), (400, 4), real='asan'), prof('fut', (30, 2), (400, 4), real='asan')],
+        'profiles': [prof('drop', (60, 15), (1500, 60)), prof('sync', (40, 10), (800, 40)), prof('fsync', (100, 20), (1500, 60)), prof('progs:cancel.progs', (0, 400), (0, 6000)), prof('pipedrop', (30, 10), (400, 40), extra=['--max-steps', '30000']), prof('progs:fut_extra.progs', (0, 60), (0, 1500)), prof('drop', (40, 2), (500, 4), real='asan'), prof('fsync', (30, 2), (400, 4), real='asan'), prof('fut', (30, 2), (400, 4), real='asan'), prof('progs:unwind_drop_sync.progs', (0, 4), (0, 20), real='asan'), prof('progs:unwind_drop.progs', (0, 4), (0, 20), real='asan')],
         'monitors': ['C14', 'C05', 'C01', 'C08', 'C02'], 'liveness': False, 'panics': True,
         'trusted_base': L1_TRUST + ['memory as ghost state: the model speaks about WHEN closures, values and job storage are used, not about Rust-level aliasing or layout'],
         'assumptions': ['PARTIAL BY NATURE: proves the lifetime protocol the unsafe sites rely on (erased sync jobs never outlive their call, closures run at most once, nothing runs after the free operation); absence of undefined behaviour outside the protocol is not provable here; the same programs also run on REAL threads under AddressSanitizer (nightly toolchain; a use of the value, a job or a captured borrow after its release aborts with a report; OS scheduling, so this samples interleavings and is evidence, not proof); canary payloads (dead flag, drop counter, wrong-object check, concurrent-modification canary) are checked in every profile; '],
